@@ -325,6 +325,9 @@ func newRun(ns, maxSize int, useTimer, gated bool, rng *rand.Rand, jitter int) (
 		r.s.At(point, args...)
 	}, nil)
 	h := &opkit.RefHandler{Decide: func(ctx context.Context, c *opkit.Call) error {
+		if r.ended.Load() {
+			return errRunOver
+		}
 		if p := r.plan; p != nil {
 			r.planMu.Lock()
 			p.hcalls++
@@ -367,6 +370,9 @@ func newRun(ns, maxSize int, useTimer, gated bool, rng *rand.Rand, jitter int) (
 	j := &opkit.JobRec{Check: func(ctx context.Context, ck *snapshotpb.OperatorCheckpoint) error {
 		r.o.sleep()
 		r.s.At(ptAck, ck.CheckpointId)
+		if r.ended.Load() {
+			return errRunOver
+		}
 		if err := ctx.Err(); err != nil {
 			r.o.mu.Lock()
 			r.o.doomed = true
@@ -905,15 +911,18 @@ func (r *run) settle(failed []bool) bool {
 	}
 }
 
-// freeze (fault arm) halts the operator so that nothing is applied or reported
-// while (and after) the judge takes its snapshots; callers still parked stay
-// parked for ever.
+// freeze (fault arm: callers may still be in flight when the run is judged)
+// makes the harness-owned adapters refuse from now on: no handler call is
+// applied and no report is accepted any more, the senders start nothing new,
+// so what the judge snapshots afterwards is final. The operator itself is not
+// touched (stopping it would close its database under a closure in flight).
 func (r *run) freeze() {
 	if r.faults {
 		r.ended.Store(true)
-		r.op.Stop()
 	}
 }
+
+var errRunOver = fmt.Errorf("harness: the run is over")
 
 // epilogue (fault arm, after the code left the model's schedule): every runner
 // that is still alive - all its calls returned nil - goes on as a real runner
@@ -1442,7 +1451,16 @@ func traceRun(ri int, in *mbt.Input, rng *rand.Rand, res *mbt.Result) []any {
 			}
 		}
 	}
+	inSnapshot := map[uint64]bool{}
+	for _, e := range events {
+		if m, ok := e.(map[string]any); ok && m["op"] == "Ack" {
+			inSnapshot[m["n"].(uint64)] = true
+		}
+	}
 	for _, ck := range r.op.J.Acks() {
+		if !inSnapshot[ck.CheckpointId] {
+			continue // reported after the recording was closed
+		}
 		c, err := safeProbe(r.dir, fmt.Sprintf("tprobe%d", ck.CheckpointId), ck, cand)
 		if err != nil {
 			res.Errors = append(res.Errors, fmt.Sprintf("trace run %d: cannot read back checkpoint %d: %v", ri, ck.CheckpointId, err))
